@@ -482,3 +482,52 @@ func visitFrameField(v ssa.Value, frameT *types.Named, f func(*types.Var)) {
 	}
 	f(frameT.Underlying().(*types.Struct).Field(idx))
 }
+
+// mustCaller builds a predicate "instruction in is, or certainly leads to, a
+// call accepted by direct": in itself is such a call, or in calls a library
+// function of the module every path of which (entry to each return) passes one
+// (followed to depth 3). This is how rules see through extracted helpers.
+func mustCaller(direct func(*ssa.CallCommon) bool) func(ssa.Instruction) bool {
+	memo := map[*ssa.Function]int{} // 1 yes, 2 no, 3 in progress
+	var instrOK func(in ssa.Instruction, depth int) bool
+	var fnOK func(fn *ssa.Function, depth int) bool
+	fnOK = func(fn *ssa.Function, depth int) bool {
+		switch memo[fn] {
+		case 1:
+			return true
+		case 2, 3:
+			return false
+		}
+		if depth > 3 || fn.Blocks == nil {
+			return false
+		}
+		memo[fn] = 3
+		ok := len(core.Returns(fn)) > 0
+		for _, r := range core.Returns(fn) {
+			if !core.MustPass(core.Entry(fn), r, func(x ssa.Instruction) bool { return instrOK(x, depth+1) }) {
+				ok = false
+			}
+		}
+		if ok {
+			memo[fn] = 1
+		} else {
+			memo[fn] = 2
+		}
+		return ok
+	}
+	instrOK = func(in ssa.Instruction, depth int) bool {
+		call, isCall := in.(*ssa.Call)
+		if !isCall {
+			return false
+		}
+		if direct(&call.Call) {
+			return true
+		}
+		callee := call.Call.StaticCallee()
+		if callee == nil || callee.Pkg == nil || !strings.HasPrefix(callee.Pkg.Pkg.Path(), core.ModulePath) {
+			return false
+		}
+		return fnOK(callee, depth)
+	}
+	return func(in ssa.Instruction) bool { return instrOK(in, 0) }
+}
